@@ -181,8 +181,31 @@ func init() {
 		st.H["Gh"] = vc.def(stateSorts["Gh"], sto(st.H["Gh"], b, bvLit(64, 0)), "Gh")
 		return nil
 	}
+	models["(*bytes.Buffer).Next"] = func(c *callCtx) *SV {
+		vc, st := c.vc, c.n.St
+		vc.note(aBuffer + "; Next(n) advances the read position by min(n, Len()) (the returned slice is not modelled)")
+		b := c.args[0].C[0]
+		n := c.args[1].C[0]
+		rd := sel(st.H["Gh"], b)
+		avail := vc.defS(SBV64, app("bvsub", sel(st.H["Wlen"], b), rd), "avail")
+		step := vc.defS(SBV64, ite(app("bvsgt", n, avail), avail, n), "step")
+		st.H["Gh"] = vc.def(stateSorts["Gh"], sto(st.H["Gh"], b, app("bvadd", rd, step)), "Gh")
+		return vc.freshSV(byteSliceType(), "next", st)
+	}
 	models["(*bytes.Buffer).Bytes"] = func(c *callCtx) *SV {
 		vc, st := c.vc, c.n.St
+		if vc.Contract != nil && vc.Contract.AliasBytes {
+			// aliasing model: the buffer's content lives in the sink row; while a slice obtained from
+			// Bytes is around, the byte heap row of the buffer object mirrors it. Writes through the
+			// slice (which go to the heap row) are taken over at the next buffer operation.
+			vc.note(aBuffer + "; Bytes() aliases the content (valid until the next write to the buffer, as documented)")
+			b := c.args[0].C[0]
+			st.H["H8"] = vc.def(heapSort(SBV8), sto(st.H["H8"], b, sel(st.H["Wout"], b)), "H8")
+			st.H["#exposed:"+b] = "1" // path-sensitive: lives in the state
+			rd := sel(st.H["Gh"], b)
+			ln := vc.defS(SBV64, app("bvsub", sel(st.H["Wlen"], b), rd), "blen")
+			return &SV{T: byteSliceType(), C: []string{b, vc.defS(SBV64, rd, "boff"), ln, ln}, NonNil: true}
+		}
 		vc.note(aBuffer + "; the returned slice is modelled as a copy of the content")
 		b := c.args[0].C[0]
 		rd := sel(st.H["Gh"], b)
@@ -341,4 +364,12 @@ func init() {
 		return v
 	}
 	modelEffects["math/rand.Int31"] = []string{}
+}
+
+// bufSyncOut: ref is (possibly) a bytes.Buffer whose content was handed out by Bytes() on this path:
+// what was just written to its byte heap row - through the aliasing slice - becomes the buffer's content.
+func (vc *VC) bufSyncOut(st *State, ref string) {
+	if st.H["#exposed:"+ref] != "" {
+		st.H["Wout"] = vc.def(stateSorts["Wout"], sto(st.H["Wout"], ref, sel(st.H["H8"], ref)), "Wout")
+	}
 }
